@@ -46,6 +46,9 @@ const FAILING: &[&str] = &[
 
 #[derive(Serialize, Deserialize, Debug, Clone)]
 pub struct BreakCase {
+    /// when set, these lines are the program (a real program text) and `prog` is ignored
+    #[serde(default)]
+    pub raw_lines: Option<Vec<String>>,
     pub prog: Program,
     pub style: Style,
     pub seed: u64,
@@ -73,7 +76,19 @@ pub fn replies() -> impl Strategy<Value = Vec<String>> {
 fn case() -> impl Strategy<Value = BreakCase> {
     let cfg = GenCfg { max_blocks: 10, ..GenCfg::C03.with_input() };
     (gen::program(cfg), gen::style(), prop_oneof![Just(0u64), any::<u64>()], replies(), any::<u64>(), prop::collection::vec(inspect(), 1..6))
-        .prop_map(|(prog, style, seed, replies, salt, inspections)| BreakCase { prog, style, seed, replies, salt, inspections })
+        .prop_map(|(prog, style, seed, replies, salt, inspections)| BreakCase { raw_lines: None, prog, style, seed, replies, salt, inspections })
+}
+
+fn repo_case() -> impl Strategy<Value = BreakCase> {
+    (0usize..2, any::<u64>(), crate::textgen::numeric_replies(), any::<u64>(), prop::collection::vec(inspect(), 1..6)).prop_map(|(w, seed, replies, salt, inspections)| BreakCase {
+        raw_lines: Some(crate::textgen::repo_program(w)),
+        prog: Program::default(),
+        style: Style::PLAIN,
+        seed,
+        replies,
+        salt,
+        inspections,
+    })
 }
 
 /// A function whose every DEF body in the program is free of RND, cells and calls.
@@ -213,7 +228,7 @@ fn classify(p: &str) -> &'static str {
 }
 
 fn check(c: &BreakCase, rec: &mut CaseRec) -> Verdict {
-    let lines = render_program(&c.prog, c.style);
+    let lines = c.raw_lines.clone().unwrap_or_else(|| render_program(&c.prog, c.style));
     let base = match load_and_run(&lines, c.seed, &c.replies, BUDGET, &mut NoHost) {
         Err(Crash(p)) => return Verdict::fail(classify(&p), format!("baseline: {} in {:?}", p, lines)),
         Ok(Err(e)) => return Verdict::fail("valid-line-rejected", format!("{:?}: {:?}", e, lines)),
@@ -411,6 +426,7 @@ fn check_stop(c: &StopCase, rec: &mut CaseRec) -> Verdict {
 pub fn property() -> Property {
     let families: Vec<Box<dyn Family>> = vec![
         prop_family("break-schedules", 8_000, 400_000, |_| case(), check),
+        prop_family("repo-programs", 300, 10_000, |_| repo_case(), check),
         prop_family("assignment-at-stop", 15_000, 600_000, |_| stop_case(), check_stop),
     ];
     Property {
